@@ -317,15 +317,15 @@ func shuffleAll(rt *rapid.T, root *gen.NodeBP) *gen.NodeBP {
 
 func TestCheckDiff(t *testing.T) {
 	s := harness.NewSub("diff-accounting-and-purity",
-		"pairs of trees (as in C07: all node kinds, duplicate and same-kind siblings): independent trees with the same root tag, a tree and its permuted copy, a tree and a copy with 1..3 uniquely tagged leaves inserted on either side under plain parents, a tree and itself (the same objects on both sides), a tree and another root over the same child objects in reverse order; then a random sequence of 0..6 operations from {String, IsDeepEqual, Sort, Tag, CompareAgain}; after CompareNodes and after every operation: entry sides are identity nodes of the right input at the right depth, every input node is represented, unique leaves are one-sided on the correct side, deep-equal inputs give an all-two-sided diff, and both inputs' GEDCOM text and node counts are unchanged; non-trivial = both trees >= 3 nodes and (Sort in the sequence or a one-sided leaf)")
+		"pairs of trees (as in C07: all node kinds, duplicate and same-kind siblings; one tree in 30 with 40..160 further children under one node): independent trees with the same root tag, a tree and its permuted copy, a tree and a copy with 1..3 uniquely tagged leaves inserted on either side under plain parents, a tree and itself (the same objects on both sides), a tree and another root over the same child objects in reverse order; then a random sequence of 0..6 operations from {String, IsDeepEqual, Sort, Tag, CompareAgain}; after CompareNodes and after every operation: entry sides are identity nodes of the right input at the right depth, every input node is represented, unique leaves are one-sided on the correct side, deep-equal inputs give an all-two-sided diff, and both inputs' GEDCOM text and node counts are unchanged; non-trivial = both trees >= 3 nodes and (Sort in the sequence or a one-sided leaf)")
 	s.Rapid(t, harness.Share(harness.Pick(150000, 10000000)), 80, func(rt *rapid.T) {
-		left := gen.EqTree(gen.EqTreeOpts{MaxNodes: 18, Roles: true}).Draw(rt, "left")
+		left := gen.EqTree(gen.EqTreeOpts{MaxNodes: 18, Roles: true, Wide: 30}).Draw(rt, "left")
 		c := diffCase{Left: left}
 		c.Kind = rapid.SampledFrom([]string{"independent", "permuted-copy", "leaves-inserted", "leaves-inserted", "leaves-inserted", "same-instance", "shared-children"}).Draw(rt, "kind")
 		oneSided := false
 		switch c.Kind {
 		case "independent":
-			c.Right = gen.EqTree(gen.EqTreeOpts{MaxNodes: 18, Roots: []string{left.Tag}, Roles: true}).Draw(rt, "right")
+			c.Right = gen.EqTree(gen.EqTreeOpts{MaxNodes: 18, Roots: []string{left.Tag}, Roles: true, Wide: 30}).Draw(rt, "right")
 		case "permuted-copy":
 			c.Right = shuffleAll(rt, left)
 		case "same-instance", "shared-children":
@@ -354,8 +354,12 @@ func TestCheckDiff(t *testing.T) {
 		if gen.HasSameKindSiblings(c.Left) {
 			cls = append(cls, "same-kind-siblings")
 		}
+		wide := gen.MaxFanout(c.Left) >= 40 || gen.MaxFanout(c.Right) >= 40
+		if wide {
+			cls = append(cls, "wide:>=40-siblings")
+		}
 		s.Eval(harness.JSON(c), nt, cls...)
-		if nt {
+		if nt && !wide {
 			s.MaybeSample(c)
 		}
 		if fl := check(c); fl != nil && s.Report(c, fl) {
